@@ -10,6 +10,7 @@ A *case* is a JSON-able description.  Arrays are described by a `spec`:
 """
 import contextlib
 import copy
+import warnings
 import hashlib
 import json
 import math
@@ -215,6 +216,15 @@ def warm(a, da=None):
             ax.size
     except Exception:
         pass
+    # method calls (reductions and transforms): whatever they may memoise on the instance must not matter later
+    for name, kw in (("sum", {}), ("sum", {"axis": 0}), ("mean", {"axis": -1}), ("min", {}), ("max", {"axis": 0}), ("median", {}), ("std", {}),
+                     ("var", {}), ("prod", {}), ("ptp", {}), ("any", {}), ("all", {}), ("cumsum", {}), ("argmin", {}), ("argmax", {})):
+        try:
+            with np.errstate(all="ignore"), warnings.catch_warnings():
+                warnings.simplefilter("ignore")
+                getattr(a, name)(**kw)
+        except Exception:
+            pass
     return a
 
 
@@ -225,14 +235,16 @@ def build(spec, da=None, attrs=None):
     (the reference models only look at those): {"mode": "warm"} queries after construction;
     {"mode": "slice", "front": [...], "back": [...]} a positional slice of a larger, warmed, unsorted parent (the
     values are then a non-contiguous view); {"mode": "relabel"} built with labels 0..n-1, warmed, then relabelled in
-    place with set_axis; {"mode": "transposed"} the transpose of an array stored in reversed dimension order."""
+    place with set_axis; {"mode": "transposed"} the transpose of an array stored in reversed dimension order; {"mode": "fortran"}
+    column-major storage; {"mode": "copyof"} a shallow copy of another, heavily used array that then received these values and axes
+    through the public setters."""
     da = da or env.import_dimarray()
     vals = spec_values(spec)
     dims, labels = list(spec["dims"]), [list(l) for l in spec["labels"]]
     hist = spec.get("hist") or {"mode": "none"}
     mode = hist.get("mode", "none")
     if not dims:
-        mode = "none" if mode in ("slice", "relabel", "transposed") else mode
+        mode = "none" if mode in ("slice", "relabel", "transposed", "fortran") else mode
     if mode == "slice":
         front = [list(f) for f in hist["front"]]
         back = [list(b) for b in hist["back"]]
@@ -256,6 +268,25 @@ def build(spec, da=None, attrs=None):
         for d, l in zip(dims, labels):
             if len(l):
                 a.set_axis(label_array(l), axis=d)
+    elif mode == "fortran":
+        a = da.DimArray(np.asfortranarray(vals), axes=[da.Axis(label_array(l), d) for l, d in zip(labels, dims)])   # column-major storage
+        warm(a, da)
+    elif mode == "copyof":
+        # a shallow copy of a heavily used *other* array (other labels, other values), then given its values and axes through the setters
+        if vals.dtype.kind == "f":
+            ov = np.arange(vals.size, dtype=int).reshape(vals.shape) + 500      # int -> the values setter casts and allocates
+        elif vals.dtype.kind == "O":
+            ov = np.empty(vals.shape, dtype=object)
+            ov[...] = "other"
+        else:
+            ov = np.zeros(vals.shape, dtype=vals.dtype)
+        other = da.DimArray(ov, axes=[da.Axis(np.arange(len(l)) + 1000, d) for l, d in zip(labels, dims)])
+        warm(other, da)
+        a = other.copy(shallow=True)
+        a.values = vals
+        a.axes = [da.Axis(label_array(l), d) for l, d in zip(labels, dims)]
+        if a.values.dtype != vals.dtype:
+            env.harness_error("copyof build changed the dtype: %r -> %r" % (vals.dtype, a.values.dtype))
     elif mode == "transposed":
         parent = da.DimArray(np.ascontiguousarray(vals.transpose()), axes=[da.Axis(label_array(l), d) for l, d in zip(labels[::-1], dims[::-1])])
         warm(parent, da)
